@@ -13,7 +13,12 @@ sub = sys.argv[1]; what = sys.argv[2] if len(sys.argv) > 2 else "conds"; rx = re
 W = int(os.environ.get("W", "170"))
 for n, b in sorted(P.bodies.items()):
     if sub not in n: continue
-    print("==", n, len(b.blocks))
+    _hdr = "== %s %d" % (n, len(b.blocks))
+    _printed = [False]
+    def out(line):
+        if not _printed[0]:
+            print(_hdr); _printed[0] = True
+        print(line)
     o = Origins(b)
     if what == "conds":
         for c in Conds(b, P, o).all():
@@ -21,10 +26,10 @@ for n, b in sorted(P.bodies.items()):
             vals = sum(c.by_succ.values(), [])
             if "Pending" in vals or "Continue" in vals and False: continue
             s = "bb%d L%s %s %s%s %s" % (c.block, b.blocks[c.block]["tspan"]["line"], c.kind, fmt(c.term)[:W-50], "/" + ">".join(c.path) if c.path else "", c.by_succ)
-            if rx is None or rx.search(s): print("  " + s[:W+40])
+            if rx is None or rx.search(s): out("  " + s[:W+40])
     else:
         for c in b.calls():
             nm = c.norm or "?"
             if any(p in (c.callee or "") for p in PLUMB): continue
             s = "bb%d L%s %s(%s)" % (c.bb, c.line, nm.split("::")[-2] + "::" + nm.split("::")[-1] if "::" in nm else nm, ", ".join(fmt(o.of_operand(a))[:60] for a in c.args))
-            if rx is None or rx.search(s): print("  " + s[:W])
+            if rx is None or rx.search(s): out("  " + s[:W])
